@@ -12,7 +12,11 @@ META = {
                   "decide this verdict.",
 }
 ASSUMPTIONS = [
-    "two assets of one exchange do not share an exchange name, nor do two instruments of one exchange (names may be shared across exchanges)",
+    "two assets of one exchange do not share an exchange name (names may be shared across exchanges)",
+    "instrument exchange names need NOT be unique within an exchange; the documented uniqueness only restricts what is judged: "
+    "name -> index (and inbound events) for a name several instruments of the exchange bear may yield any of its bearers; "
+    "index -> name (and the outbound request) of such an instrument yields that name or is refused, never another name; "
+    "every instrument whose exchange name is unique within its exchange translates exactly, whatever else the collection contains",
     "requests handed to a manager carry that manager's own exchange index or are refused; a refused request makes ExecutionManager::run panic by design ('non-configured key') and must not reach the client",
     "the collection's entities are present in IndexedInstruments (C11); their indices are taken as the implementation assigned them",
     "abstract exchanges / names are concretised order-preservingly (ExchangeId by declaration order, names as strings)",
